@@ -195,6 +195,7 @@ public:
   IM genMatrix(size_t n)
   {
     const long lim = limFor(n), half = n <= 6 ? 4 : 1;
+    if (rng.chance(3, 10)) return genSparse(n, lim);
     size_t kind = rng.below(10);
     if (kind < 4) return randomM(n, rng.chance(1, 3) ? 2 : lim);
     if (kind < 6)
@@ -233,6 +234,72 @@ public:
       return a;
     }
     IM a = randomM(n, 1); // many ties between candidate pivots
+    return a;
+  }
+  // sparse and structured matrices: zero patterns that are not triangular although many symmetric pairs hold a zero
+  std::vector<size_t> randomPerm(size_t n, bool singleCycle)
+  {
+    std::vector<size_t> p(n);
+    for (size_t i = 0; i < n; ++i) p[i] = i;
+    if (singleCycle)
+    { // Sattolo: one cycle of length n
+      for (size_t i = n; i > 1; --i) std::swap(p[i - 1], p[rng.below(i - 1)]);
+    }
+    else
+      for (size_t i = n; i > 1; --i) std::swap(p[i - 1], p[rng.below(i)]);
+    return p;
+  }
+  IM genSparse(size_t n, long lim)
+  {
+    IM a(n, std::vector<long>(n, 0));
+    auto nz = [&]() { long x = rng.range(1, lim); return rng.coin() ? x : -x; };
+    switch (rng.below(5))
+    {
+    case 0: // every entry zero with probability 1/2 or 3/4
+    {
+      unsigned den = rng.coin() ? 2 : 4;
+      for (auto& r : a)
+        for (auto& x : r) x = rng.chance(1, den) ? nz() : 0;
+      if (rng.coin())
+        for (size_t i = 0; i < n; ++i) a[i][i] = nz();
+      break;
+    }
+    case 1: // permutation matrix / permuted diagonal, cycles of every length (one in two: a single n-cycle)
+    {
+      std::vector<size_t> p = randomPerm(n, rng.coin());
+      bool ones = rng.coin();
+      for (size_t i = 0; i < n; ++i) a[i][p[i]] = ones ? 1 : nz();
+      break;
+    }
+    case 2: // diagonal + one off-diagonal entry per row along a permutation: cyclic zero pattern (e.g. [[1,2,0],[0,1,3],[4,0,1]])
+    {
+      std::vector<size_t> p = randomPerm(n, true);
+      for (size_t i = 0; i < n; ++i)
+      {
+        a[i][i] = nz();
+        if (p[i] != i) a[i][p[i]] = nz();
+      }
+      break;
+    }
+    case 3: // permuted sparse triangular (rows and columns permuted independently)
+    {
+      IM t(n, std::vector<long>(n, 0));
+      for (size_t i = 0; i < n; ++i)
+        for (size_t j = i; j < n; ++j) t[i][j] = (i == j) ? nz() : (rng.chance(1, 3) ? nz() : 0);
+      std::vector<size_t> p = randomPerm(n, false), q = rng.coin() ? p : randomPerm(n, false);
+      for (size_t i = 0; i < n; ++i)
+        for (size_t j = 0; j < n; ++j) a[i][j] = t[p[i]][q[j]];
+      break;
+    }
+    default: // banded with a corner entry
+      for (size_t i = 0; i < n; ++i)
+      {
+        a[i][i] = rng.chance(1, 5) ? 0 : nz();
+        if (i + 1 < n) a[i][i + 1] = nz();
+      }
+      if (n >= 2) a[n - 1][0] = nz();
+      break;
+    }
     return a;
   }
   IM genRhs(size_t rows, size_t cols, long lim)
@@ -373,7 +440,7 @@ public:
       long long mx = 0;
       J xs = roundedJ(*X, static_cast<long double>(d), dev, mx);
       bool big = static_cast<double>(mx) * static_cast<double>(maxAbs(a)) * static_cast<double>(n) > 2.0e9;
-      if (big) ++skippedBig;
+      if (big && d != 0) ++skippedBig; // (an answer for a singular matrix is a violation, not a magnitude skip)
       e.kv("big", big);
       if (!big) e.kv("Xs", xs).kv("close", dev < 0.25L);
     }
@@ -402,7 +469,7 @@ public:
       long long mx = 0;
       J xs = roundedJ(*O, static_cast<long double>(d), dev, mx);
       bool big = static_cast<double>(mx) * static_cast<double>(maxAbs(a)) * static_cast<double>(n) > 2.0e9;
-      if (big) ++skippedBig;
+      if (big && d != 0) ++skippedBig;
       e.kv("big", big);
       if (!big) e.kv("Xs", xs).kv("close", dev < 0.25L);
     }
@@ -468,6 +535,7 @@ public:
       if (maxN >= 6 && rng.chance(1, 6)) n = 7 + rng.below(4); // 7..10 with small entries
       factor(1, genMatrix(n), cls());
       if (!objs.count(1)) continue;
+      if (rng.chance(1, 3)) detWrapper(objs.at(1).a, cls());
       long len = rng.range(2, 6);
       int next = 2;
       if (rng.chance(1, 3)) factor(next++, genMatrix(1 + rng.below(maxN)), cls()); // a second object, so that assignments have a target
@@ -498,7 +566,11 @@ public:
           else inspect(o);
         }
         else if (r < 79) inverse(objs.at(o).a, cls(), cls());
-        else if (r < 86) detWrapper(objs.at(o).a, cls());
+        else if (r < 86)
+        { // both determinant entry points on the same matrix: MatrixTools::det and LUDecomposition::det (inside Inspect)
+          detWrapper(objs.at(o).a, cls());
+          if (rng.coin()) inspect(o);
+        }
         else if (r < 93) detTranspose(objs.at(o).a, cls(), cls());
         else
         {
